@@ -163,6 +163,8 @@ class Engine:
                 return v.z
             if v.ty.kind == "int":
                 return v.z != 0
+            if v.ty.kind == "atom":
+                return self.S.func("str_is_nonempty", self.S.Atom, z3.BoolSort())(v.z)
             if v.ty.kind == "oatom":
                 raise Unsupported("truthiness of str-or-None", node)
             if v.ty.kind == "obj":
@@ -323,6 +325,12 @@ class Engine:
             return v
         if k == "list" and isinstance(v, (VSet, VDict)):
             return self.list_of(v, st, node)
+        if k == "list" and isinstance(v, VScalar) and v.ty.kind == "obj" and self.registry.iter_view(self, st, v, node) is not None:
+            return self.list_of(v, st, node)
+        if k == "set" and isinstance(v, VScalar) and v.ty.kind == "obj" and self.registry.iter_view(self, st, v, node) is not None:
+            return self.set_of(v, st, node)
+        if k == "set" and isinstance(v, (VList, VDict)):
+            return self.set_of(v, st, node)
         if k == "set" and isinstance(v, VSet):
             return v
         if k in ("dict", "odict") and isinstance(v, VDict):
@@ -1166,7 +1174,54 @@ class Engine:
                 if isinstance(b, Raised):
                     out.append((s2, b))
                     continue
+                if isinstance(op, (ast.Eq, ast.NotEq)) and (self.is_objish(a) or self.is_objish(b)):
+                    out.extend(self.obj_equal(a, b, s2, e, negate=isinstance(op, ast.NotEq)))
+                    continue
                 out.append((s2, self.compare(op, a, b, s2, e)))
+        return out
+
+    def is_objish(self, v) -> bool:
+        if isinstance(v, VOpt):
+            v = v.val
+        return isinstance(v, VScalar) and v.ty.kind == "obj"
+
+    def obj_equal(self, a: V, b: V, st: State, node, negate: bool):
+        """== / != on user objects goes through the class's __eq__ contract (None only equals None)."""
+        from .contracts import apply_contract
+        cases = [(st, a, b)]
+        out = []
+        # split optional operands
+        for side in (0, 1):
+            nxt = []
+            for (s1, x, y) in cases:
+                v = (x, y)[side]
+                if isinstance(v, VOpt):
+                    t, f = self.branch(s1, v.is_none, node)
+                    if t is not None:
+                        nxt.append((t, VNone(), y) if side == 0 else (t, x, VNone()))
+                    if f is not None:
+                        nxt.append((f, v.val, y) if side == 0 else (f, x, v.val))
+                else:
+                    nxt.append((s1, x, y))
+            cases = nxt
+        for (s1, x, y) in cases:
+            if isinstance(x, VNone) or isinstance(y, VNone):
+                r = isinstance(x, VNone) and isinstance(y, VNone)
+                out.append((s1, VPy(r != negate)))
+                continue
+            if not (isinstance(x, VScalar) and x.ty.kind == "obj"):
+                out.append((s1, VPy(False != negate)))  # e.g. str == object
+                continue
+            c = self.registry.method_contract(self, x.ty.name, "__eq__")
+            if c is None:
+                raise Unsupported("== on %s objects without an __eq__ contract" % x.ty.name, node)
+            for (s2, r) in apply_contract(self, s1, c, [y], {}, node, self_obj=x):
+                if isinstance(r, Raised):
+                    out.append((s2, r))
+                elif isinstance(r, VPy):
+                    out.append((s2, VPy(bool(r.obj) != negate)))
+                else:
+                    out.append((s2, VScalar(z3.Not(r.z) if negate else r.z, T.bool)))
         return out
 
     def len_const_idiom(self, e, st):
@@ -1251,6 +1306,12 @@ class Engine:
                 r = a.z == b.z
                 return VScalar(z3.Not(r) if neg else r, T.bool)
             if isinstance(a, VPy) and isinstance(b, VPy):
+                if isinstance(a.obj, tuple) and isinstance(b.obj, tuple) and a.obj[:1] == ("typeof",) and b.obj[:1] == ("typeof",):
+                    x, y = a.obj[1], b.obj[1]
+                    if isinstance(x, VScalar) and isinstance(y, VScalar) and x.ty.kind == "obj" and y.ty.kind == "obj":
+                        r = self.tag_of(st, x) == self.tag_of(st, y)
+                        return VScalar(z3.Not(r) if neg else r, T.bool)
+                    raise Unsupported("type(x) is type(y) on non-objects", node)
                 return VPy((a.obj == b.obj) != neg)
             raise Unsupported("`is` on %s/%s" % (type(a).__name__, type(b).__name__), node)
         if isinstance(op, (ast.In, ast.NotIn)):
@@ -1315,7 +1376,7 @@ class Engine:
         arr = z3.Const(fresh_name("cat"), la.arr.sort())
         i = z3.Int(fresh_name("i"))
         st.assume(z3.ForAll([i], arr[i] == z3.If(i < la.n, la.arr[i], lb.arr[i - la.n]), patterns=[arr[i]]))
-        return VList(la.n + lb.n, arr, la.ty)
+        return VList(la.n + lb.n, arr, la.ty, False, False, z3.SetUnion(self.list_mem(la, st), self.list_mem(lb, st)))
 
     def ex_Subscript(self, e, st):
         out = []
@@ -1487,24 +1548,62 @@ class Engine:
                 out.append((s1, n))
                 continue
             if isinstance(n, str) and n == "concrete":
-                items = []
-                for it in elem_at:
-                    cond, vals, extra, _ = self.comp_body(g, [e.elt], it, s1, e)
-                    self.comp_obligations(s1, e, lambda f: f)
-                    for f in extra:
-                        s1.assume(f)
-                    if cond is True or (not isinstance(cond, bool) and z3.is_true(z3.simplify(cond))):
-                        items.append(vals[0])
-                    elif cond is False:
-                        pass
-                    else:
-                        raise Unsupported("symbolic filter over literal sequence", e)
-                out.append((s1, VTuple(items, is_list=True)))
+                out.extend(self.concrete_listcomp(e, g, s1, elem_at))
                 continue
             out.append((s1, self.symbolic_listcomp(e, g, s1, n, elem_at, info)))
         return out
 
     ex_GeneratorExp = ex_ListComp
+
+    def concrete_listcomp(self, e, g, st: State, items):
+        """[f(x) for x in <literal sequence> if p(x)]: unrolled on the real state (calls inside may touch the heap)."""
+        saved = {n.id: st.env.get(n.id) for n in ast.walk(g.target) if isinstance(n, ast.Name)}
+        states = [(st, [])]
+        for it in items:
+            nxt = []
+            for (cur, acc) in states:
+                if isinstance(acc, Raised):
+                    nxt.append((cur, acc))
+                    continue
+                for (c1, o1) in self.assign(g.target, it, cur, None):
+                    if o1 is not None:
+                        nxt.append((c1, o1[1]))
+                        continue
+                    conds = [(c1, True)]
+                    for flt in g.ifs:
+                        nc = []
+                        for (c2, keep) in conds:
+                            if keep is not True:
+                                nc.append((c2, keep))
+                                continue
+                            for (c3, fv) in self.ev(flt, c2):
+                                if isinstance(fv, Raised):
+                                    nc.append((c3, fv))
+                                    continue
+                                t, f = self.branch(c3, self.truth(fv, c3, e), e)
+                                if t is not None:
+                                    nc.append((t, True))
+                                if f is not None:
+                                    nc.append((f, False))
+                        conds = nc
+                    for (c2, keep) in conds:
+                        if isinstance(keep, Raised):
+                            nxt.append((c2, keep))
+                        elif keep is False:
+                            nxt.append((c2, acc))
+                        else:
+                            for (c3, v) in self.ev(e.elt, c2):
+                                nxt.append((c3, v if isinstance(v, Raised) else acc + [v]))
+            states = nxt
+        out = []
+        for (cur, acc) in states:
+            for nm, old in saved.items():
+                if old is None:
+                    cur.env.pop(nm, None)
+                else:
+                    cur.env[nm] = old
+            out.append((cur, acc if isinstance(acc, Raised) else VTuple(acc, is_list=True)))
+        return out
 
     def symbolic_listcomp(self, e, g, st: State, n, elem_at, info=None) -> VList:
         """[f(x) for x in seq if p(x)]: result keeps relative order (engine axiom §3.6-3).
@@ -1534,10 +1633,22 @@ class Engine:
             if not self.mentions(cx, i):
                 rmem = z3.Const(fresh_name("lc_mem"), smem.sort())
                 st.assume(z3.ForAll([x], rmem[x] == z3.And(smem[x], cx), patterns=[rmem[x]]))
+        if rmem is None and src_list is not None:
+            # set view of a mapped (and filtered) comprehension: the image of the source's member set
+            smem = self.list_mem(src_list, st)
+            x = z3.Const(fresh_name("lx"), src_list.arr.sort().range())
+            vx = z3.substitute(v.z, (src_list.arr[i], x))
+            cx = z3.substitute(condz, (src_list.arr[i], x))
+            if not self.mentions(vx, i) and not self.mentions(cx, i):
+                rmem = z3.Const(fresh_name("lc_img"), z3.ArraySort(v.z.sort(), z3.BoolSort()))
+                pre_img = z3.Function(fresh_name("lc_pre"), v.z.sort(), x.sort())
+                y = z3.Const(fresh_name("ly"), v.z.sort())
+                st.assume(z3.ForAll([x], z3.Implies(z3.And(smem[x], cx), rmem[vx]), patterns=[smem[x]]))
+                st.assume(z3.ForAll([y], z3.Implies(rmem[y], z3.And(smem[pre_img(y)], z3.substitute(cx, (x, pre_img(y))), z3.substitute(vx, (x, pre_img(y))) == y)), patterns=[rmem[y]]))
         if cond is True:
             arr = z3.Const(fresh_name("lc"), z3.ArraySort(z3.IntSort(), v.z.sort()))
             st.assume(z3.ForAll([i], z3.Implies(guard, arr[i] == v.z), patterns=[arr[i]]))
-            return VList(n, arr, T.list(v.ty))
+            return VList(n, arr, T.list(v.ty), False, False, rmem)
         m = z3.Int(fresh_name("lc_n"))
         arr = z3.Const(fresh_name("lc"), z3.ArraySort(z3.IntSort(), v.z.sort()))
         src = z3.Function(fresh_name("src"), z3.IntSort(), z3.IntSort())
